@@ -156,3 +156,28 @@ func init() {
 	}
 	verifProtocolScenarios = append(verifProtocolScenarios, verifScenario{"C07/interp.Interpreter.cfg/if:binPkg/*", hostVar}, verifScenario{"C07/interp.getBinVar/*", hostVar})
 }
+
+var verifHostChan = make(chan int, 2)
+
+func init() {
+	// C07: send, receive and select on a channel variable supplied by the host
+	verifProtocolScenarios = append(verifProtocolScenarios, verifScenario{"C07/interp.send/*", func() (observed bool, detail string) {
+		defer func() {
+			if r := recover(); r != nil {
+				observed, detail = true, fmt.Sprintf("Eval panicked: %v", r)
+			}
+		}()
+		verifHostChan = make(chan int, 2)
+		var out bytes.Buffer
+		i := New(Options{Stdout: &out, Stderr: &out})
+		if err := i.Use(stdlib.Symbols); err != nil {
+			return true, err.Error()
+		}
+		if err := i.Use(Exports{"host/host": {"Ch": reflect.ValueOf(&verifHostChan).Elem()}}); err != nil {
+			return true, err.Error()
+		}
+		_, err := i.Eval("package main\nimport (\"fmt\"; \"host\")\nfunc main() {\n host.Ch <- 1\n var x int8 = 3\n host.Ch <- int(x) * 2\n v, ok := <-host.Ch\n select { case w := <-host.Ch: fmt.Println(v, ok, w, len(host.Ch)); default: fmt.Println(\"empty\") }\n host.Ch <- 9\n}")
+		want := "1 true 6 0\n"
+		return out.String() != want || err != nil || len(verifHostChan) != 1, fmt.Sprintf("output %q (err %v, %d value(s) left for the host); compiled Go prints %q and leaves 1", out.String(), err, len(verifHostChan), want)
+	}})
+}
